@@ -37,6 +37,7 @@ import (
 	"context"
 	"crypto/ecdsa"
 	"crypto/tls"
+	"encoding/json"
 	"fmt"
 	"io"
 	"log"
@@ -1014,6 +1015,60 @@ func keys(m map[string]bool) []string {
 	return k
 }
 
+// ---- replay of a reported violation -----------------------------------------------------------
+
+// replayFile re-executes the execution stored in a /verif/replay/C14-*.json file (bin/check --replay).
+func replayFile(t *testing.T, rep *ev.Report, path string, mat *certenv.Material, tmp string) {
+	b, err := os.ReadFile(path)
+	if err != nil {
+		rep.HarnessError("replay: %v", err)
+		return
+	}
+	var f struct {
+		Replay struct {
+			Layout  string   `json:"layout"`
+			History []string `json:"history"`
+			Merge   bool     `json:"inotify_merge_policy"`
+			Choices []int    `json:"choices"`
+		} `json:"replay"`
+	}
+	if err := json.Unmarshal(b, &f); err != nil {
+		rep.HarnessError("replay: %v", err)
+		return
+	}
+	h := history{merge: f.Replay.Merge}
+	if f.Replay.Layout == "k8s" {
+		h.layout = certenv.K8s
+	}
+	byName := map[string]certenv.Step{}
+	for _, st := range certenv.Alphabet(h.layout, []int{2, 3}, certenv.AlphaOpt{Unlink: true, Halves: true, Garbage: true}) {
+		byName[st.String()] = st
+	}
+	byName[certenv.Step{Op: certenv.OpPartial, F: certenv.Cert, Gen: 3}.String()] = certenv.Step{Op: certenv.OpPartial, F: certenv.Cert, Gen: 3}
+	byName[certenv.Step{Op: certenv.OpPartial, F: certenv.Key, Gen: 3}.String()] = certenv.Step{Op: certenv.OpPartial, F: certenv.Key, Gen: 3}
+	for _, n := range f.Replay.History {
+		st, ok := byName[n]
+		if !ok {
+			rep.HarnessError("replay: unknown step %q", n)
+			return
+		}
+		h.steps = append(h.steps, st)
+	}
+	st := &stats{feat: map[string]struct{}{}}
+	out, trace := mc.Replay(f.Replay.Choices, func(c *mc.Chooser) mc.Outcome {
+		return runOne(t, h, c, runOpts{mat: mat, tmp: tmp, handshakes: true, selfcheck: true, stats: st})
+	})
+	rep.Add("evaluations", 1)
+	rep.Add("states", st.actions)
+	rep.Add("transitions", st.actions)
+	rep.Note("distinct_nontrivial", "replay")
+	rep.Sample(map[string]any{"history": h.String(), "schedule": trace, "presented_after_each_action": out.Obs})
+	for i, v := range out.Violations {
+		rep.Violate(parseSig(out.Sigs[i]), f.Replay, "%s", v)
+	}
+	t.Logf("replayed %s: schedule %v: presented %s: %d violation(s) %v", h, trace, out.Obs, len(out.Violations), out.Sigs)
+}
+
 // ---- the check ----------------------------------------------------------------------------
 
 // pass: one family of histories explored by a tier
@@ -1095,6 +1150,11 @@ func TestCheck(t *testing.T) {
 		"the leaf a TLS client sees is computed by an emulation of crypto/tls certificate selection on the tls.Config built by the binary's defaultTLSConfig; it is cross-checked by real TLS handshakes at every quiescent point of the undisturbed schedules",
 		"rename of a new file over a watched path that is itself a symlink, and unlink-then-create, are not among the three styles of the statement: the first is not explored, the second only for the safety clauses",
 	)
+
+	if rp := os.Getenv("VERIF_REPLAY"); rp != "" {
+		replayFile(t, rep, rp, mat, tmp)
+		return
+	}
 
 	// Part A: the model against the real thing
 	func() {
